@@ -801,11 +801,13 @@ func (s *Server) readPQClientRequestHidden(hs *HandshakeState, b []byte) (int, e
 		rawLeaf, rawIntermediate, remoteEphemeralBytes []byte
 		c                                              *Certificate
 	)
-	bufCopy := make([]byte, len(b))
+	var bufCopy []byte
 
 	for _, cert := range certList {
-		// Copy buffer for processing
-		copy(bufCopy, b)
+		// Copy buffer for processing. Every certificate is tried against the
+		// whole request, so start from a fresh copy: bufCopy is consumed
+		// (re-sliced) while a candidate is processed.
+		bufCopy = append([]byte(nil), b...)
 
 		// Recreate duplex at each VM loop
 		hs.duplex.InitializeEmpty()
